@@ -2,6 +2,7 @@ package gql
 
 import (
 	"fmt"
+	"github.com/vektah/gqlparser/v2/formatter"
 	"sort"
 	"strings"
 
@@ -28,6 +29,7 @@ type OpFeatures struct {
 	InlineFragments  bool
 	Typename         bool
 	RootTypename     bool
+	RootIntrospect   bool // __type(name:) next to data fields at the root of a query
 	NodeRoot         bool
 	MultiOp          bool
 	DupFields        bool
@@ -65,6 +67,8 @@ func DefaultOpFeatures(t *tape.Tape) OpFeatures {
 		FragTwice:       t.Bool(1, 2),
 		FragReuse:       t.Bool(1, 2),
 		VarNamedIDRoot:  t.Bool(1, 3),
+		RootTypename:    t.Bool(1, 3),
+		RootIntrospect:  t.Bool(1, 4),
 		VarInInput:      t.Bool(1, 3),
 		VarStricter:     t.Bool(1, 3),
 		MultiOp:         t.Bool(1, 5),
@@ -257,9 +261,15 @@ func (g *og) rootSel(root *ast.Definition, kind ast.Operation) string {
 	}
 	if g.f.NodeRoot && node != nil && kind == ast.Query && (g.t.Bool(1, 2) || len(parts) == 0) {
 		g.mark("node-root")
-		ents := g.w.kind("entity")
+		var ents []string
+		for _, en := range g.w.kind("entity") {
+			// (an entity no field refers to is in no schema)
+			if g.schema.Types[en] != nil {
+				ents = append(ents, en)
+			}
+		}
 		k := 1 + g.t.Choose(2)
-		for i := 0; i < k; i++ {
+		for i := 0; i < k && len(ents) > 0; i++ {
 			en := ents[g.t.Choose(len(ents))]
 			id := g.w.EntityID(en, g.t.Choose(g.w.NEntities))
 			alias := ""
@@ -296,6 +306,11 @@ func (g *og) rootSel(root *ast.Definition, kind ast.Operation) string {
 	if g.f.RootTypename && g.t.Bool(1, 3) && kind != ast.Subscription {
 		g.mark("root-typename")
 		parts = append(parts, "__typename")
+	}
+	if g.f.RootIntrospect && g.t.Bool(1, 3) && kind == ast.Query {
+		g.mark("root-introspection")
+		names := append([]string{"ZzNoSuchType", "Query", "String"}, g.w.Order...)
+		parts = append(parts, fmt.Sprintf("zzType: __type(name: %q) { name kind }", names[g.t.Choose(len(names))]))
 	}
 	return "{ " + strings.Join(parts, " ") + " }"
 }
@@ -709,4 +724,54 @@ func (g *og) entityLikeID() string {
 		return "vk3"
 	}
 	return g.w.EntityID(es[g.t.Choose(len(es))], g.t.Choose(3))
+}
+
+// WithHelperIDs rewrites an operation into the text the gateway's planner turns it into for
+// its own use: every selection set on an entity object type that lacks an (unaliased) id gets
+// one in front. A client can send that text as an operation of its own; it differs from the
+// original only in asking for the ids. ok is false when nothing was added or the operation
+// uses fragments (which the planner rewrites in other ways too).
+func WithHelperIDs(schema *ast.Schema, w *World, op *Op) (text string, ok bool) {
+	doc, errs := gqlparser.LoadQuery(schema, op.Text)
+	if errs != nil || len(doc.Fragments) > 0 {
+		return "", false
+	}
+	changed, plain := false, true
+	var walk func(ss ast.SelectionSet, typ *ast.Definition) ast.SelectionSet
+	walk = func(ss ast.SelectionSet, typ *ast.Definition) ast.SelectionSet {
+		hasID := false
+		for _, sel := range ss {
+			f, isField := sel.(*ast.Field)
+			if !isField {
+				plain = false
+				continue
+			}
+			if f.Name == "id" && f.Alias == "id" {
+				hasID = true
+			}
+			if len(f.SelectionSet) > 0 && f.Definition != nil {
+				f.SelectionSet = walk(f.SelectionSet, schema.Types[f.Definition.Type.Name()])
+			}
+		}
+		if typ != nil && typ.Kind == ast.Object && !hasID {
+			if td := w.Types[typ.Name]; td != nil && td.Kind == "entity" {
+				changed = true
+				return append(ast.SelectionSet{&ast.Field{Name: "id", Alias: "id"}}, ss...)
+			}
+		}
+		return ss
+	}
+	for _, o := range doc.Operations {
+		root := schema.Query
+		if o.Operation == ast.Mutation {
+			root = schema.Mutation
+		}
+		o.SelectionSet = walk(o.SelectionSet, root)
+	}
+	if !changed || !plain {
+		return "", false
+	}
+	var b strings.Builder
+	formatter.NewFormatter(&b).FormatQueryDocument(doc)
+	return b.String(), true
 }
